@@ -80,9 +80,11 @@ var c09Menu = []c09Spec{
 }
 
 type c09Sock struct {
-	spec  c09Spec
-	ep    tcpip.Endpoint
-	conns []tcpip.Endpoint // accepted connections (listeners)
+	spec     c09Spec
+	ep       tcpip.Endpoint
+	conns    []tcpip.Endpoint // accepted connections (listeners)
+	peer     tcpip.Address    // set once the socket connected to another peer than R:Q
+	peerPort uint16
 }
 
 type c09World struct {
@@ -229,7 +231,11 @@ func (c *c09World) expect(p c09Pkt) (idx int, processed bool) {
 		if local != "" && local != p.Dst {
 			continue
 		}
-		if s.spec.Conn && !(p.Src == c09R && p.SPort == c09Q) {
+		peer, peerPort := tcpip.Address(c09R), uint16(c09Q)
+		if s.peer != "" {
+			peer, peerPort = s.peer, s.peerPort
+		}
+		if s.spec.Conn && !(p.Src == peer && p.SPort == peerPort) {
 			continue
 		}
 		// rank: connected+specific 4, connected+wildcard 3, specific 2, wildcard 1
@@ -501,6 +507,27 @@ func c09History(order []int, toggle string, closeIdx int, pkts []c09Pkt) (*c09Fa
 		c.r.w.Settle()
 		if n > 0 {
 			hist += "reconnect-same-peer "
+			if f := sweep(); f != nil {
+				return f, probes, true
+			}
+		}
+		toggle = ""
+	}
+	if toggle == "reconnect-other" {
+		// every connected UDP socket connects to another peer (R2:Q2): from then on it is that
+		// peer's datagrams it gets, and the former peer's go to whoever matches them now
+		n := 0
+		for _, sk := range c.socks {
+			if sk.spec.Conn && !sk.spec.TCP {
+				if err := sk.ep.Connect(tcpip.FullAddress{NIC: tcpip.NICID(sk.spec.ConnNIC), Addr: c09R2, Port: c09Q2}); err == nil {
+					sk.peer, sk.peerPort = c09R2, c09Q2
+					n++
+				}
+			}
+		}
+		c.r.w.Settle()
+		if n > 0 {
+			hist += "connected-udp-sockets-connect-to(R2:Q2) "
 			if f := sweep(); f != nil {
 				return f, probes, true
 			}
@@ -1049,6 +1076,12 @@ func c09Run(job, tier string, deadline time.Time) *engine.Result {
 					toggle string
 					close  int
 				}{"reconnect", -1})
+				if !c09Menu[m].TCP {
+					variants = append(variants, struct {
+						toggle string
+						close  int
+					}{"reconnect-other", -1})
+				}
 				break
 			}
 		}
